@@ -9,16 +9,18 @@
 (* of every render and single-block render.                                *)
 (***************************************************************************)
 EXTENDS Registry, Json
-CONSTANT MaxChain
+CONSTANTS MaxChain,
+          Slim        \* TRUE: block a only (absent / defined / defined with super()), which affords longer chains
 PrefixesDef == <<>>
 VARIABLES n, cfg, done, rev
 \* names of the levels, root first: in lexicographic order, or against it (a child's name sorting before its parent's)
-Lv == IF rev THEN <<"D", "C", "B", "A">> ELSE <<"A", "B", "C", "D">>
+Lv == IF rev THEN <<"E", "D", "C", "B", "A">> ELSE <<"A", "B", "C", "D", "E">>
 Kinds == {"none", "def", "super"}
 \* per level: a, b, and where b is written: "top" | "nest" | "cap" (only meaningful when both are defined)
 \* sa: super() written after the nested block (only meaningful when a calls super and b is nested in it)
 LevelChoices == {c \in [a : Kinds, b : Kinds, w : {"top", "nest", "cap"}, sa : BOOLEAN] :
-                   ((c.a = "none" \/ c.b = "none") => c.w = "top") /\ (c.sa => c.a = "super" /\ c.w # "top")}
+                   ((c.a = "none" \/ c.b = "none") => c.w = "top") /\ (c.sa => c.a = "super" /\ c.w # "top")
+                   /\ (Slim => c.b = "none")}
 Init == /\ n \in 1..MaxChain /\ rev \in BOOLEAN /\ (n = 1 => ~rev)
         /\ cfg \in [1..MaxChain -> LevelChoices]
         /\ \A i \in 1..MaxChain : i > n => cfg[i] = [a |-> "none", b |-> "none", w |-> "top", sa |-> FALSE]
@@ -26,8 +28,8 @@ Init == /\ n \in 1..MaxChain /\ rev \in BOOLEAN /\ (n = 1 => ~rev)
 Next == ~done /\ done' = TRUE /\ UNCHANGED <<n, cfg, rev>>
 Desc(i) == [Leaf EXCEPT !.ext = IF i = 1 THEN "" ELSE Lv[i - 1], !.a = cfg[i].a, !.b = cfg[i].b,
                         !.nest = cfg[i].w \in {"nest", "cap"}, !.cap = cfg[i].w = "cap", !.sa = cfg[i].sa]
-Names4 == {Lv[i] : i \in 1..4}
-T == [m \in Names4 |-> IF \E i \in 1..n : Lv[i] = m THEN Desc(CHOOSE i \in 1..n : Lv[i] = m) ELSE Absent]
+Names5 == {Lv[i] : i \in 1..5}
+T == [m \in Names5 |-> IF \E i \in 1..n : Lv[i] = m THEN Desc(CHOOSE i \in 1..n : Lv[i] = m) ELSE Absent]
 Lvls == {Lv[i] : i \in 1..n}
 InvAlgoIsDecl == done /\ Accept(T) => \A m \in Lvls, blk \in {"a", "b"} : AlgoLineage(T, m, blk) = Lineage(T, m, blk)
 \* the most-derived definition is first; every further entry is reached through a super() call of the previous one
